@@ -44,6 +44,7 @@ func propC03(c *Ctx) {
 	c.ruleTypedNilError("C03-TYPED-NIL-ERROR")
 	c.ruleSchemaErrorMessage("C03-SCHEMA-ERROR-MESSAGE")
 	c.ruleDeclaredNameRequired("C03-DECLARED-NAME-REQUIRED")
+	c.ruleCollectBeforeUse() // a reference to an undefined name must not resolve to something created on the way
 	c.ruleKindVisitedAll("C03-KIND-VISITED-ALL")
 	c.ruleErrorOnOwnDirective("C03-ERROR-ON-OWN-DIRECTIVE")
 }
